@@ -23,6 +23,9 @@ CHECKS = {
     "C07": ("fault_enumeration", "stateful property-based fault injection (Hypothesis rule-based state machine, invariants + post-script probes)",
             "Generated fault scripts (refusals, latencies, EOF, reset, garbage, bad CRC, truncation, undecodable payloads, write faults, unencodable messages, raising subscribers, external resets, two faults in one instant) against a live socket; invariant: never two open connections, no dead client task; after the network heals the client must be connected within 11 s of virtual time, deliver a probe frame and write a probe command, and have closed every abandoned connection.",
             "healing bound 11 s virtual; desynchronised inbound streams are dropped by the simulated console before probing; " + TRUST),
+    "C08": ("exploration", "property-based testing (Hypothesis @given answer patterns, independent timeline model on a virtual clock)",
+            "Generated answer patterns over 2..12 consecutive heartbeats (prompt / late / never, silence from the first heartbeat, after a response, after a reset; unsolicited responses; decoy frames; link outages at a heartbeat instant) for both generations and for a bare HeartbeatManager with custom (interval, timeout); the instants of version requests and of client-side closes observed at the simulated console must equal those of an independent timeline model (request every interval while connected, reset exactly when no response arrived for the timeout).",
+            "exact coincidences with a deadline are discarded; reconnection after a reset is immediate; " + TRUST),
     "C09": ("exploration", "property-based testing (Hypothesis @given over installation x console behaviour, reference handshake model)",
             "Generated installations (1..4 ACs, 0..16 zones, AT4 bitmap / old single / old multi-AC, AT5 ranges and zero-zone echo) and console behaviours (delays, segmentation, unsolicited / duplicate / unknown / foreign-addressed frames, silence from step k, connect latency below/above 5 s) drive connect()+init() against a simulated console; request order, return value and time of init(), and the exposed ACs/zones/getters are compared with a reference handshake model and reference object model.",
             "installations are self-consistent; answer instants never tie exactly with the 5 s deadline; " + TRUST),
